@@ -1427,7 +1427,7 @@ def exclusive_small(tier):
     const = lambda c, k, dd: ['const', fs(dd), fs(c + k + F(1, 2)), c]   # noqa
     assigns = [a for a in itertools.product('LBR', repeat=3) if 'L' in a and 'R' in a]
     if tier == 'quick':
-        assigns = [('L', 'B', 'R'), ('L', 'R', 'R'), ('L', 'L', 'R')]
+        assigns = [('L', 'B', 'R'), ('L', 'R', 'R')]
     leafs = [ramp, const] if tier == 'thorough' else [ramp]
     wraps = ['none', 'seq', 'rep', 'rev', 'neg'] if tier == 'thorough' else ['none', 'seq']
     for a in assigns:
@@ -1550,6 +1550,8 @@ def malformed_recipes(rng):
         t(1, [(0, 1, 'h'), (1, 2, 'l'), (-1, 3, 'l')]), t(1, [(0, 1, 'h'), (1, 2, 'l'), (-1, 3, 'l')], False),
         t(1, [(0, 1, 'h'), (-1, 2, 'l'), (1, 3, 'l')]),
         ['multi', False, [c(1, 1, 1), c(1, 2, 2), c(2, 3, 3)]], ['multi', True, [c(1, 1, 1), c(2, 2, 2), c(1, 3, 3)]],
+        ['getsubset', ['func', ['1', '1'], '1', 1], []], ['getsubset', t(1, [(0, 0, 'h'), (1, 1, 'l')], False), []],
+        ['getsubset', ['arith', False, c(1, 1, 1), '-', c(1, 2, 2)], []], ['getsubset', ['rev', t(1, [(0, 0, 'h'), (1, 1, 'l')])], []],
     ]
     return out
 
@@ -1887,7 +1889,7 @@ def gen_cases(rng, tier, ctx):
             cases.append({'kind': 'sample', 'grid_kind': gk, 'r': r, 'grid': [fs(t) for t in gs[gk]], 'chans': sorted(chans),
                           'family': tag})
     # (f) constructor paths found unreached by the coverage audit
-    for r, dur, chans, tag in gen_ctor_targets(rng, 80 if tier == 'quick' else 1200):
+    for r, dur, chans, tag in gen_ctor_targets(rng, 60 if tier == 'quick' else 1200):
         gs = grids_for(rng, dur)
         for gk in ('off', 'end') if tier == 'quick' else ('off', 'on', 'end'):
             cases.append({'kind': 'sample', 'grid_kind': gk, 'r': r, 'grid': [fs(t) for t in gs[gk]], 'chans': sorted(chans),
